@@ -10,10 +10,14 @@ Stage 2 (correspondence): generated strings are placed in every user-controlled 
   the raw token with serde_escape, the accepted/rejected and readable/unreadable outcome
   with the model, and decode_string with serde_json's own reader (vh lpath) and Python's
   on arbitrary tokens.
+  A second part respells one string of a committed inventory the way other software may
+  (backslash-u escapes, escaped slash) at every string position and compares get_object /
+  validate with the model's current readers (main_read_pos, val_read_pos).
 Stage 3 (direct search): model-free oracle - an accepted operation after which open / list /
-  commit fails, a string read back that differs from the string given, a string a conforming
-  parser does not read back, or rocfl validate rejecting what rocfl wrote is a violation
-  unless the case lies in a recorded known-finding class (classifier evaluated in Coq).
+  cat / reset <path> / commit / get_object fails, a string read back that differs from the
+  string given, a string a conforming parser does not read back, or rocfl validate rejecting
+  what rocfl wrote is a violation.  No known-finding class is left for C10 (all five were
+  repaired in /repo): every such failure is reported.
 """
 import concurrent.futures
 import json
@@ -26,12 +30,23 @@ from vplib.common import coq_str, coq_bool, coq_opt
 
 POSITIONS = ["id", "lpath_dst", "lpath_src", "cdir", "name", "address", "message"]
 
-# oracle tags -> known-finding slugs that may explain them.  The former classes cdir-empty and
-# cdir-collides-with-inventory were repaired in /repo (d88c1da, repo.rs:581-590): their inputs are still
-# generated (blank, inventory.json, inventory.json.<anything> and the neighbouring names) and MUST pass.
-# The former class id-trimmed was repaired by 031a721 (repo.rs:551-557): ids with outer white space are still
-# generated and MUST work in every later command under the very string given.
-K_ESC, K_VAL = ("json-escape-borrowed", "validator-json-escape")
+# Every former known-finding class of C10 was repaired in /repo; their inputs are still generated and MUST pass:
+#   cdir-empty, cdir-collides-with-inventory (d88c1da, repo.rs:581-590): blank, inventory.json, inventory.json.<anything>
+#     and the neighbouring names as content directory;
+#   id-trimmed (031a721, repo.rs:551-557): ids with outer white space work in every later command under the string given;
+#   json-escape-borrowed (bb69bb9, serde.rs:412,454): file names with quotes, backslashes, control characters go through
+#     cp, ls -S, cat -S, reset <path>, commit, get_object, cat;
+#   validator-json-escape (2f36fc5, validate/serde.rs): rocfl validate reports no error for ids, content directories,
+#     addresses, content and logical paths that need a JSON escape.
+# The only residual difference between the main reader and a conforming decoder is an escaped spelling of head / a version
+# key, which rocfl never writes (KnownC10.c10_foreign_escaped_version_name); it is exercised by the foreign-spelling part.
+FOREIGN_SLUG = "foreign-escaped-version-name"
+PAYLOAD = b"hello C10"
+
+
+def glob_escape(path):
+    """the glob that matches exactly this logical path (reset takes globs; backslash_escape is on, inventory.rs:748-752)"""
+    return "".join("\\" + ch if ch in "\\*?[]{}" else ch for ch in path)
 
 
 # --------------------------------------------------------------------------- generators
@@ -247,7 +262,7 @@ def run_case(ctx, sess, case):
             return o
         roots = hist.find_object_roots(r.staging_root)
         o["staged0"] = load_inventory(roots[0]) if len(roots) == 1 else (None, None, [])
-        res = step({"op": "cp_ext", "id": oid, "files": [[srcname, b"hello C10"]], "dst": dst})
+        res = step({"op": "cp_ext", "id": oid, "files": [[srcname, PAYLOAD]], "dst": dst})
         o["cp_ok"] = ok(res)
         roots = hist.find_object_roots(r.staging_root)
         o["staged1"] = load_inventory(roots[0]) if len(roots) == 1 else (None, None, [])
@@ -255,6 +270,16 @@ def run_case(ctx, sess, case):
         o["gso"] = res
         res = call("list_staged")
         o["list_staged_ok"] = ok(res) and all(ok(e) for e in res["ok"])
+        exp = expected_lpath(dst, srcname)
+        o["exp"] = exp
+        if o["cp_ok"]:
+            # cat -S, reset <path> (the glob matching exactly this path), ls -S again, cp again
+            o["cat_staged"] = call("cat_staged", id=oid, path=exp)
+            if pos in ("lpath_dst", "lpath_src"):
+                o["reset_path"] = step({"op": "reset", "id": oid, "paths": [glob_escape(exp)], "recursive": False})
+                o["gso_after_reset"] = call("get_staged_object", id=oid)
+                o["cp2"] = step({"op": "cp_ext", "id": oid, "files": [[srcname, PAYLOAD]], "dst": dst})
+                o["gso2"] = call("get_staged_object", id=oid)
         res = step({"op": "commit", "id": oid, "name": name, "address": addr, "message": msg, "pretty": case["pretty"]})
         o["commit_ok"] = ok(res)
         o["commit_res"] = hist.res_class(res)
@@ -272,6 +297,8 @@ def run_case(ctx, sess, case):
         res = call("list_objects")
         o["list_ok"] = ok(res) and all(ok(e) for e in res["ok"]) and len(res["ok"]) == 1
         o["validate"] = call("validate_object", id=oid)
+        if o["cp_ok"]:
+            o["cat"] = call("cat", id=oid, version=None, path=exp)
         return o
     finally:
         sess.call("drop", h=h)
@@ -367,6 +394,24 @@ def analyse(case, o):
     if not o["new_ok"] and not o.get("nothing_staged", True):
         msgs.append(("create_object refused the input but left a staged object behind", []))
 
+    def bytes_ok(res):
+        return bool(res) and ok(res) and res["ok"].get("hex") == PAYLOAD.hex()
+
+    if o.get("cp_ok"):
+        # every accepted cp: the staged file can be read, the path can be reset and staged again, the committed file can be read
+        exp_p = o["exp"]
+        if not bytes_ok(o.get("cat_staged")):
+            msgs.append(("cp accepted, cat -S of the staged path fails or returns other bytes", []))
+        if "reset_path" in o:
+            g = o.get("gso_after_reset") or {}
+            if not ok(o["reset_path"]) or not ok(g) or exp_p in g["ok"]["state"]:
+                msgs.append(("cp accepted, reset <path> fails or leaves the path staged", []))
+            g2 = o.get("gso2") or {}
+            if not ok(o.get("cp2") or {}) or not ok(g2) or list(g2["ok"]["state"].keys()) != [exp_p]:
+                msgs.append(("cp of the same file after reset <path> fails", []))
+        if o.get("commit_ok") and not bytes_ok(o.get("cat")):
+            msgs.append(("committed, cat of the logical path fails or returns other bytes", []))
+
     if pos == "id":
         stored = None
         if o["new_ok"]:
@@ -384,13 +429,13 @@ def analyse(case, o):
                     msgs.append(("get_object returns a different id", []))
                 want_token(o["committed"], s, "committed id")
                 if not vclean:
-                    msgs.append(("rocfl validate rejects the inventory rocfl wrote", [K_VAL]))
+                    msgs.append(("rocfl validate rejects the inventory rocfl wrote", []))
             later = all_ok and go["ok"]["id"] == s
         else:
             later = False
         chk = "check_id %s %s %s %s %s" % (coq_str(s), coq_bool(o["new_ok"]), coq_opt(stored, coq_str),
                                           coq_bool(later), coq_bool(vclean))
-        kn = "known_id %s" % coq_str(s)
+        kn = "(@nil bool)"
         key = (pos, o["new_ok"], later, vclean)
         return pack(chk, kn), msgs, key
 
@@ -425,12 +470,12 @@ def analyse(case, o):
                         msgs.append(("get_object returns a different state/content path", []))
                     want_token(o["committed"], exp_cp, "committed content path")
                     if not vclean:
-                        msgs.append(("rocfl validate rejects the inventory rocfl wrote", [K_VAL]))
+                        msgs.append(("rocfl validate rejects the inventory rocfl wrote", []))
             if not commit_ok and not (o.get("reset_all_ok") and o.get("gone_after_reset_all")):
                 msgs.append(("reset_all does not recover the object", []))
         chk = "check_cdir %s %s %s %d %s %s %s %s %s" % (coq_str(s), coq_str(alg), coq_str(lp), pad, coq_bool(o["new_ok"]),
                                                       coq_bool(cp_ok), coq_bool(staged_ok), coq_bool(commit_ok), coq_bool(vclean))
-        kn = "known_cdir %s %s %s %d" % (coq_str(s), coq_str(alg), coq_str(lp), pad)
+        kn = "(@nil bool)"
         key = (pos, o["new_ok"], cp_ok, staged_ok, commit_ok, vclean)
         return pack(chk, kn), msgs, key
 
@@ -457,9 +502,9 @@ def analyse(case, o):
                     else:
                         msgs.append(("manifest of the staged inventory does not hold the expected content path", []))
                 if not staged_ok:
-                    msgs.append(("cp accepted the path, the staged object cannot be opened/listed", [K_ESC]))
+                    msgs.append(("cp accepted the path, the staged object cannot be opened/listed", []))
                 if not commit_ok:
-                    msgs.append(("cp accepted the path, commit fails", [K_ESC]))
+                    msgs.append(("cp accepted the path, commit fails", []))
                 elif not later_reads_ok:
                     msgs.append(("committed object cannot be opened/listed", []))
                 else:
@@ -468,7 +513,7 @@ def analyse(case, o):
                         msgs.append(("get_object returns a different logical/content path", []))
                     want_token(o["committed"], exp, "committed logical path")
                     if not vclean:
-                        msgs.append(("rocfl validate rejects the inventory rocfl wrote", [K_VAL]))
+                        msgs.append(("rocfl validate rejects the inventory rocfl wrote", []))
             else:
                 if paths:
                     msgs.append(("cp failed but a logical path was staged", []))
@@ -478,7 +523,7 @@ def analyse(case, o):
                 msgs.append(("reset_all does not recover the object", []))
         chk = "check_lpath %s %s %s %d %s %s %s %s %s" % (coq_str(dst), coq_str(srcname), coq_str("content"), pad, coq_bool(cp_ok),
                                                        coq_opt(stored, coq_str), coq_bool(staged_ok), coq_bool(commit_ok), coq_bool(vclean))
-        kn = "known_lpath %s %s" % (coq_str(dst), coq_str(srcname))
+        kn = "(@nil bool)"
         key = (pos, cp_ok, staged_ok, commit_ok, vclean)
         return pack(chk, kn), msgs, key
 
@@ -505,21 +550,16 @@ def analyse(case, o):
                 else:
                     want_token(o["committed"], s, "commit metadata")
             if not vclean:
-                msgs.append(("rocfl validate rejects the inventory rocfl wrote", [K_VAL]))
+                msgs.append(("rocfl validate rejects the inventory rocfl wrote", []))
     oc = lambda x: coq_opt(x, coq_str)
     chk = "check_meta %s %s %s %s %s %s" % (oc(name), oc(addr), oc(msg), coq_bool(commit_ok), coq_bool(read_ok), coq_bool(vclean))
-    kn = "known_meta %s %s %s" % (oc(name), oc(addr), oc(msg))
+    kn = "(@nil bool)"
     key = (pos, commit_ok, read_ok, vclean)
     return pack(chk, kn), msgs, key
 
 
-KNOWN_FLAGS = {
-    "id": [K_VAL],
-    "cdir": [K_VAL],
-    "lpath_dst": [K_ESC, K_VAL],
-    "lpath_src": [K_ESC, K_VAL],
-    "name": [K_VAL], "address": [K_VAL], "message": [K_VAL],
-}
+# no known-finding class is left for any position (the second component of a case's Coq value stays empty)
+KNOWN_FLAGS = {p: [] for p in POSITIONS}
 
 
 def parse_triple(v):
@@ -529,6 +569,99 @@ def parse_triple(v):
     if len(groups) != 3:
         return None, None, None
     return tuple([x.strip() == "true" for x in g.split(";") if x.strip()] for g in groups)
+
+
+# --------------------------------------------------------------------------- inventories as other software spells them
+
+def respell(text, how):
+    """another legal JSON spelling of the same string"""
+    def u(ch):
+        cp = ord(ch)
+        if cp > 0xFFFF:
+            cp -= 0x10000
+            return "\\u%04x\\u%04x" % (0xD800 + (cp >> 10), 0xDC00 + (cp & 0x3FF))
+        return "\\u%04x" % cp
+    if how == "u-first":
+        body = u(text[0]) + json.dumps(text[1:])[1:-1]
+    elif how == "u-last":
+        body = json.dumps(text[:-1])[1:-1] + u(text[-1]).upper().replace("\\U", "\\u")
+    elif how == "u-all":
+        body = "".join(u(ch) for ch in text)
+    elif how == "slash":
+        body = json.dumps(text)[1:-1].replace("/", "\\/")
+    else:
+        raise ValueError(how)
+    return ('"' + body + '"').encode("ascii")
+
+
+def run_foreign(ctx):
+    """one committed benign object; for every string position of its inventory and several respellings the root and
+    version inventory (+ sidecars) are rewritten with that one token respelled, then read through a fresh handle.
+    returns [(coq position, string, token, main_ok, val_ok, steps)]"""
+    import hashlib
+    oid, lp, name, addr, msg = "urn:example:foreign", "d/f.txt", "Some One", "mailto:someone@example.org", "a message"
+    cfg = {"layout": "0004", "repo_spec": "1.1", "obj_spec": "1.1", "alg": "sha512", "cdir": "content", "pad": 0, "fresh_handle": False}
+    sess = hist.Session()
+    r = hist.Runner(ctx, cfg, "foreign", session=sess, handle="F")
+    out = []
+    try:
+        for op in ({"op": "new", "id": oid}, {"op": "cp_ext", "id": oid, "files": [["src.txt", PAYLOAD]], "dst": lp},
+                   {"op": "commit", "id": oid, "name": name, "address": addr, "message": msg, "pretty": False}):
+            cmd, res = r.step(op)
+            if not ok(res):
+                raise common.BuildError("foreign-spelling part: benign %s failed: %r" % (op["op"], res))
+        roots = r.object_roots()
+        if len(roots) != 1:
+            raise common.BuildError("foreign-spelling part: object root not found")
+        root = roots[0]
+        data = open(os.path.join(root, "inventory.json"), "rb").read()
+        inv = json.loads(data)
+        digest = list(inv["manifest"].keys())[0]
+        created = inv["versions"]["v1"]["created"]
+        # (Coq position, context before the token, the string)
+        spots = [("PId", '"id":', oid), ("PType", '"type":', inv["type"]), ("PDigestAlg", '"digestAlgorithm":', "sha512"),
+                 ("PHead", '"head":', "v1"), ("PContentDir", '"contentDirectory":', "content"),
+                 ("PManifestDigest", '"manifest":{', digest), ("PContentPath", '"manifest":{"%s":[' % digest, "v1/content/" + lp),
+                 ("PVersionKey", '"versions":{', "v1"), ("PCreated", '"created":', created), ("PMessage", '"message":', msg),
+                 ("PUserName", '"name":', name), ("PUserAddress", '"address":', addr),
+                 ("PStateDigest", '"state":{', digest), ("PLogicalPath", '"state":{"%s":[' % digest, lp)]
+        files = [os.path.join(root, "inventory.json"), os.path.join(root, "v1", "inventory.json")]
+        for cpos, before, text in spots:
+            hows = ["u-first", "u-last", "u-all"] + (["slash"] if "/" in text else [])
+            for how in hows:
+                tok = respell(text, how)
+                old = before.encode() + json.dumps(text).encode()
+                if data.count(old) != 1 or json.loads(tok) != text:
+                    raise common.BuildError("foreign-spelling part: cannot place %s in the inventory rocfl wrote" % cpos)
+                new = data.replace(old, before.encode() + tok)
+                if json.loads(new) != inv:
+                    raise common.BuildError("foreign-spelling part: respelled inventory is not the same JSON value")
+                side = ("%s  inventory.json\n" % hashlib.sha512(new).hexdigest()).encode()
+                for f in files:
+                    open(f, "wb").write(new)
+                    open(f + ".sha512", "wb").write(side)
+                r.reopen()
+                steps = []
+
+                def call(cmd, **kw):
+                    res = sess.call(cmd, h="F", **kw)
+                    steps.append((cmd, hist.res_class(res)))
+                    return res
+                go = call("get_object", id=oid, version=None)
+                vs = call("versions", id=oid)
+                ls = call("list_objects")
+                ct = call("cat", id=oid, version=None, path=lp)
+                va = call("validate_object", id=oid)
+                main_ok = (ok(go) and ok(vs) and ok(ls) and all(ok(e) for e in ls["ok"]) and len(ls["ok"]) == 1 and ok(ct)
+                           and go["ok"]["id"] == oid and list(go["ok"]["state"].keys()) == [lp]
+                           and go["ok"]["state"][lp]["content_path"] == "v1/content/" + lp
+                           and vs["ok"][-1]["name"] == name and vs["ok"][-1]["address"] == addr and vs["ok"][-1]["message"] == msg)
+                val_ok = ok(va) and not va["ok"]["errors"]
+                out.append((cpos, text, tok, main_ok, val_ok, steps, how))
+        return out
+    finally:
+        sess.close()
+        r.sc.cleanup()
 
 
 # --------------------------------------------------------------------------- decoder correspondence
@@ -718,16 +851,46 @@ def run(ctx):
             common.corr_break(ctx, "Corr.CheckJson check_token (serde_escape vs the token in inventory.json)",
                               {"input": inp, "observed": {"steps": o["steps"]}, "model_value": value})
 
-    ctx.coverage["traces_validated_against_impl"] = len(cases) + len(dterms)
+    # ---- the inventory rocfl wrote, respelled the way other software may spell it
+    fcases = run_foreign(ctx)
+    fterms = ["(check_foreign %s %s %s %s %s, foreign_class %s %s, (@nil bool))"
+              % (cp_, coq_str(t_), coq_str(k_), coq_bool(m_), coq_bool(v_), cp_, coq_str(k_)) for cp_, t_, k_, m_, v_, _, _ in fcases]
+    fres = common.coq_eval("c10f", imports, fterms)
+    lap("foreign")
+    fstats = {"cases": len(fcases), "main_reader_ok": 0, "validator_ok": 0, "escaped_head_or_version_key_refused_by_main_reader": 0,
+              "by_position": {}}
+    for (cp_, t_, k_, m_, v_, steps, how), value in zip(fcases, fres):
+        checks, cls, _ = parse_triple(value)
+        fstats["main_reader_ok"] += int(m_)
+        fstats["validator_ok"] += int(v_)
+        fstats["by_position"][cp_] = fstats["by_position"].get(cp_, 0) + 1
+        ctx.count(("foreign", cp_, k_), nontrivial=True,
+                  sample={"position": cp_, "string": t_, "token": k_.decode("ascii"), "steps": steps, "model_checks": checks, "residual_class": cls})
+        if cls and cls[0] and not m_:
+            # an escaped spelling of head / a version key: rocfl never writes it, the main reader refuses it (types.rs:43)
+            fstats["escaped_head_or_version_key_refused_by_main_reader"] += 1
+            if FOREIGN_SLUG in known_ids:
+                ctx.known_hit(FOREIGN_SLUG)
+        if checks is None or not all(checks):
+            common.corr_break(ctx, "Corr.CheckJson check_foreign (Model/Json.v main_read_pos / val_read_pos vs serde.rs / validate/serde.rs)",
+                              {"input": {"position": cp_, "string": t_, "token": k_.decode("ascii"), "respelling": how},
+                               "observed": {"steps": steps, "main_ok": m_, "val_ok": v_}, "model_value": value})
+    ctx.coverage["foreign_spelling"] = fstats
+
+    ctx.coverage["traces_validated_against_impl"] = len(cases) + len(dterms) + len(fcases)
     ctx.coverage["distribution"] = stats
     ctx.coverage["decoder_correspondence"] = dstats
     ctx.coverage["timing_s"] = tm
     ctx.assumptions.append("strings reach the library as Rust &str (valid UTF-8); invalid UTF-8 is only exercised on the decoder model against Python")
     ctx.assumptions.append("file-system limits (no NUL, 255 bytes per name) are modelled as fs_name_ok; total path lengths are kept below PATH_MAX by the generator")
     ctx.assumptions.append("clap's argument decoding and chrono's timestamp grammar are outside the model")
+    ctx.assumptions.append("residual, outside C10's statement: the main reader refuses an escaped JSON spelling of head / a version key "
+                           "(VersionNum, try_from &str, types.rs:43); rocfl never writes one (theorem C10_rocfl_never_writes_escaped_version_name)")
     return common.finish_with_proof(
         ctx, proof,
         rule="hostile string pool (each control character, quote, backslash, DEL, non-BMP, NFC/NFD, Unicode white space, percent, "
              "reserved names, 255/256-byte and 5 kB strings) + random compositions + all single bytes 0x01-0x7F, each placed in object id, "
              "logical path (destination and source file name), content directory, user name, address, message; plus raw JSON tokens with "
-             "every escape kind for the decoder; distinct = distinct (position, string) or (decoder, token)")
+             "every escape kind for the decoder; plus the committed inventory of one object with one token respelled (first / last / "
+             "every character as a backslash-u escape, escaped slashes) at each of the 14 string positions; "
+             "distinct = distinct (position, string), (decoder, token) or (foreign, position, token)")
